@@ -310,6 +310,11 @@ func (p *parser) addEventParamsToScope(e *EventHandlerStmt) {
 		}
 		p.validateVarDecl(param, param.token, true /* allowUnderscore */)
 		exptectedType := expectedParams[i].Type()
+		if param.T == nil {
+			// Invalid type declaration, already reported. Use the expected
+			// type so that the handler body can still be checked.
+			param.T = exptectedType
+		}
 		if !param.Type().Equals(exptectedType) {
 			p.appendError(fmt.Sprintf("wrong type for parameter %s, expected %s, got %s", param.Name, exptectedType, param.Type()))
 		}
